@@ -153,6 +153,7 @@ func init() {
 	// the library's tokeniser, per iteration (header sizes, truncation, part and remainder bounds)
 	addRule("C13", rule{name: "T-tok", run: ruleTTok})
 	addRule("C14", rule{name: "T-tok", run: ruleTTok})
+	addRule("C14", rule{name: "T-tmpl", run: ruleTMultisigScan})
 	addRule("C13", rule{name: "T-asm", run: ruleTAsmReader})
 	addRule("C15", rule{name: "T-b58", run: ruleTB58})
 	// what a codec function hands back is its own (no buffer shared between calls)
